@@ -212,6 +212,11 @@ def callableOf (name : String) : Option (Bytes → Ret) :=
   | "dropl" => some (fun _ => .many [])
   | "dup" => some (fun d => .many [d, d])
   | "mark" => some (fun d => .one (if d = [] then [0x21] else d))
+  | "tup" => some (fun d => .many [d])
+  | "gen" => some (fun d => .many [d.take 1, d.drop 1])
+  | "iter" => some (fun d => .many [d, d])
+  | "egen" => some (fun _ => .many [])
+  | "genmark" => some (fun d => .many [if d = [] then [0x21] else d])
   | _ => none
 
 end MitmVerif.C07
